@@ -125,7 +125,9 @@ func Compress(msg *pb.XuperMessage) *pb.XuperMessage {
 
 // Decompress decompress msg
 func Decompress(msg *pb.XuperMessage) ([]byte, error) {
-	if msg == nil || msg.Header == nil || msg.Data == nil || msg.Data.MsgInfo == nil {
+	// a nil MsgInfo is an empty payload: protobuf does not put an empty bytes field on the wire,
+	// so a message whose payload marshals to zero bytes arrives with MsgInfo == nil
+	if msg == nil || msg.Header == nil || msg.Data == nil {
 		return []byte{}, errors.New("param error")
 	}
 
